@@ -404,41 +404,41 @@ pub fn run(tier: Tier) -> i32 {
             if i >= j || edits[i].field() == edits[j].field() {
                 return;
             }
-            // quick: thin the pair product on all maps but the first baseline
-            if !tier.thorough() && mi != 1 && (i + j) % 4 != 0 {
-                return;
-            }
             check(name, map, &[&edits[i], &edits[j]], acc);
         });
         pairs_total += a.evals;
         acc = acc.merge(a);
     }
-    // thorough: every triple of edits on distinct fields on one baseline, from a reduced edit list
+    // thorough: every triple of edits on distinct fields; the full edit list on two baselines (osu, mania), a reduced
+    // list (every third edit) on every other map of the pool
     let mut triples_total = 0u64;
     if tier.thorough() {
         let reduced: Vec<&Edit> = edits.iter().enumerate().filter(|(i, _)| i % 3 == 0).map(|(_, e)| e).collect();
-        let nr = reduced.len() as u64;
-        let (name, map) = &pool[4];
-        let a = par_range(nr * nr * nr, |idx, acc| {
-            let (i, j, k) = ((idx / nr / nr) as usize, ((idx / nr) % nr) as usize, (idx % nr) as usize);
-            if !(i < j && j < k) {
-                return;
-            }
-            let (a, b, c) = (reduced[i], reduced[j], reduced[k]);
-            if a.field() == b.field() || b.field() == c.field() || a.field() == c.field() {
-                return;
-            }
-            check(name, map, &[a, b, c], acc);
-        });
-        triples_total = a.evals;
-        acc = acc.merge(a);
+        let full: Vec<&Edit> = edits.iter().collect();
+        for (mi, (name, map)) in pool.iter().enumerate() {
+            let list = if mi == 1 || mi == 4 { &full } else { &reduced };
+            let nr = list.len() as u64;
+            let a = par_range(nr * nr * nr, |idx, acc| {
+                let (i, j, k) = ((idx / nr / nr) as usize, ((idx / nr) % nr) as usize, (idx % nr) as usize);
+                if !(i < j && j < k) {
+                    return;
+                }
+                let (a, b, c) = (list[i], list[j], list[k]);
+                if a.field() == b.field() || b.field() == c.field() || a.field() == c.field() {
+                    return;
+                }
+                check(name, map, &[a, b, c], acc);
+            });
+            triples_total += a.evals;
+            acc = acc.merge(a);
+        }
     }
     let summary = Summary {
         rule: "map pool (default map, the four per-mode full-featured baselines, six bundled maps) x every single edit of the edit \
                alphabet (8 text fields x 25 strings with colons, '//', commas, quotes, brackets, header-like and version-like text, \
                non-ASCII; file names; boundary numbers within the parse limits; flags; mode; countdown; bookmark lists; colours; \
-               breaks) and every pair of edits on distinct fields (quick: all pairs on one baseline, thinned on a second map; \
-               thorough: whole pool): the edited in-memory map is encoded and decoded and compared with C02's field list; every \
+               breaks) and every pair of edits on distinct fields on every map of the pool (thorough: also every triple, \
+               full edit list on two baselines, every third edit elsewhere): the edited in-memory map is encoded and decoded and compared with C02's field list; every \
                difference is a violation (for mode edits only mode-independent fields are compared). distinct_nontrivial = distinct (map, edits)"
             .into(),
         bounds: json!({"pool": pool.iter().map(|p| p.0.clone()).collect::<Vec<_>>(), "edits": ne, "single_edit_cases": singles, "pair_cases": pairs_total, "triple_cases": triples_total}),
